@@ -39,13 +39,13 @@ def strategy_(draw, tier):
     bnd = draw(st.sampled_from([0, 0, 1, 2, 5, int(round(p_lo)), n // 5, n // 3]))
     return {'fs': fs, 'f_range': [f_lo, f_hi], 'sig': sig, 'fk': fk, 'boundary': bnd,
             'first': draw(st.sampled_from(['peak', 'trough', None])), 'pad': draw(st.sampled_from([True, True, False])),
-            'dtype': draw(st.sampled_from(['float64'] * 5 + ['float32', 'int64', 'int16-rails', 'uint16'])),
+            'dtype': draw(st.sampled_from(['float64'] * 5 + ['float32', 'int64', 'int16-rails', 'uint16', 'int64-rails'])),
             'np_scalars': draw(st.integers(0, 3)) == 0}
 
 
 def cast(x, kind):
     """find_extrema only orders raw samples inside windows, so any real dtype is a legitimate input here; the reference
-    works on the float64 image of the same values (exact for all of these dtypes)"""
+    works on the float64 image of the same values for filtering and orders the raw samples in their own dtype"""
     x = np.asarray(x, dtype=float)
     if kind == 'float32':
         return x.astype(np.float32)
@@ -54,6 +54,9 @@ def cast(x, kind):
     span = max(float(np.max(np.abs(x))), 1e-12)
     if kind == 'int16-rails':          # ADC counts that saturate at both rails (-32768 and 32767)
         return np.clip(np.round(x / span * 40000), -32768, 32767).astype(np.int16)
+    if kind == 'int64-rails':          # 64-bit counts clipping at +-2**61 with the last bit toggling: neighbours that float64 cannot tell apart
+        xi = np.clip(np.round(x / span * 1.4 * 2.0 ** 61), -2.0 ** 61, 2.0 ** 61).astype(np.int64)
+        return xi + ((np.arange(len(xi)) * 7) % 3 == 0).astype(np.int64)
     if kind == 'uint16':               # offset binary bottoming out at 0
         return np.clip(np.round(x / span * 40000 + 30000), 0, 65535).astype(np.uint16)
     return x
@@ -137,7 +140,7 @@ def check(case, rec):
             if len(w) != 1:
                 raise Violation('not-in-a-closed-half-wave', '%s at %d' % (name, g))
             a, b = w[0]
-            seg = sign * xp[a + off:b + off]
+            seg = xp[a + off:b + off] if sign > 0 else -xp[a + off:b + off]      # no float product: 64-bit counts stay exact
             j = int(g) - a
             if np.any(seg > seg[j]):
                 raise Violation('not-the-extreme-of-its-window', '%s at %d, window [%d,%d)' % (name, g, a, b))
